@@ -83,7 +83,6 @@ Section Elem.
   Hypothesis Hdeps : deps_rel O w kvs deps.
   Hypothesis Hreq : forall r, In r (match props with Some ps => props_required ps | None => [] end) ->
                               In r (match lookup (s_ "required") kvs with Some j => jstr_list j | None => [] end).
-  Hypothesis Hw : forall name, waived w kvs name = false.
 
   (* ---- the spec's object clause in the terms of C01Object / C01Deep ---- *)
   Definition req_spec (m : list (str * json)) : bool :=
@@ -101,7 +100,7 @@ Section Elem.
   Definition contains_spec (xs : list json) : bool :=
     match lookup (s_ "contains") kvs with Some Sc => existsb (F Sc) xs | None => true end.
 
-  Lemma cl_object_unfold m :
+  Lemma cl_object_unfold (Hw : forall name, waived w kvs name = false) m :
     cl_object O w F kvs (JObj m) =
     req_spec m && forallb (fun kx => member_b O w kvs (fst kx) (snd kx)) m
     && deps_spec (JObj m) m && pnames_spec m.
@@ -175,7 +174,7 @@ Section Elem.
   Qed.
 
   (* ---- the untyped element ---- *)
-  Theorem untyped_om v : jwf v ->
+  Theorem untyped_om (Hw : forall name, waived w kvs name = false) v : jwf v ->
     om (B (EK CElement K) (Some v)) (cl_scalar O kvs v && cl_items F kvs v && cl_object O w F kvs v).
   Proof.
     intros Hv.
@@ -199,7 +198,7 @@ Section Elem.
         * rewrite (addi_implied O w kvs items addi Hitems Haddi l (proj1 (jwf_arr l) Hv) Ei). btauto.
         * btauto.
       + (* object *)
-        rewrite cl_object_unfold. unfold addi_b, req_b. fold K. rewrite req_eq. rewrite !andb_true_r.
+        rewrite (cl_object_unfold Hw). unfold addi_b, req_b. fold K. rewrite req_eq. rewrite !andb_true_r.
         destruct (forallb (fun kx => member_b O w kvs (fst kx) (snd kx)) l) eqn:Em.
         * rewrite (addpv_implied K l Hv eq_refl eq_refl eq_refl Em). btauto.
         * btauto.
@@ -366,7 +365,7 @@ Section Elem.
       + eapply IH; eauto.
   Qed.
 
-  Lemma finish_plain_om S0 K' st e st' : Kvariant K' ->
+  Lemma finish_plain_om (Hw : forall name, waived w kvs name = false) S0 K' st e st' : Kvariant K' ->
     lookup (s_ "type") S0 = lookup (s_ "type") kvs -> type_not_object kvs ->
     finish_plain cfg S0 K' st = POk (e, st') ->
     forall v, jwf v -> om (B e (Some v)) (cl_type kvs v && rest_b v).
@@ -378,7 +377,7 @@ Section Elem.
         apply ret_inv in H as [<- _]. cbn [andb].
         assert (E : B (EK CElement K') (Some v) = B (EK CElement K) (Some v)).
         { destruct HK as [->|(d & ->)]; [reflexivity|apply build_set_default]. }
-        rewrite E. apply (untyped_om v Hv). }
+        rewrite E. apply (untyped_om Hw v Hv). }
     destruct Sty as [| | | |t|ts|]; try (exfalso; eapply fail_inv; eauto; fail).
     - eapply typed_single_om; eauto. now apply str_eqb_neq.
     - assert (Hgen : forall st0 e0 st0',
@@ -404,5 +403,277 @@ Section Elem.
       destruct ts as [|[| | | |t| |] [|t2 tr]]; try (eapply Hgen; exact H).
       cbn [existsb]. rewrite orb_false_r.
       eapply typed_single_om; eauto. apply str_eqb_neq. intros ->. inversion Hno; subst. congruence.
+  Qed.
+
+  (* ---- object classes (ObjectMeta instances) ---- *)
+  Definition reqs : list str :=
+    match lookup (s_ "required") kvs with Some j => jstr_list j | None => [] end.
+  Definition props0 : list (str * prop elem) := match props with Some l => l | None => [] end.
+
+  (* what the class built by _parse_object holds when every required name is declared *)
+  Definition kexp : kwds elem :=
+    mkK (k_default K) (k_const K) (k_enum K) None (AddBool true) None None false None
+        None None None None None None None None None None
+        (Some props0) pats addp (lookup (s_ "minProperties") kvs) (lookup (s_ "maxProperties") kvs)
+        pnames deps (k_description K).
+
+  Lemma o_id {A} (p : String.string) (x : option A) :
+    (lookup (s_ p) kvs = None -> x = None) -> (if has_key (s_ p) kvs then x else None) = x.
+  Proof. unfold has_key. destruct (lookup (s_ p) kvs); auto. intros H. symmetry. auto. Qed.
+
+  Lemma lit_none (p : String.string) : lookup (s_ p) kvs = None ->
+    match lookup (s_ p) kvs with Some j => Some (strip_autotitle j) | None => None end = None.
+  Proof. intros ->. reflexivity. Qed.
+
+  Hypothesis Hreqdecl : forall r, In r reqs -> has_key (attr cfg r) props0 = true.
+
+  Lemma obj_record_exp : obj_record cfg kvs K = set_default kexp (if has_key (s_ "default") kvs then k_default K else None).
+  Proof.
+    unfold obj_record. fold reqs.
+    change (match k_properties K with Some l => l | None => [] end) with props0.
+    assert (Hs : flat_map (fun key => if has_key (attr cfg key) props0 then []
+                                       else [(attr cfg key, mkProp EElement true key)]) reqs = []).
+    { assert (G : forall l, (forall r, In r l -> has_key (attr cfg r) props0 = true) ->
+                  flat_map (fun key => if has_key (attr cfg key) props0 then []
+                                       else [(attr cfg key, mkProp EElement true key)]) l = []).
+      { induction l as [|r l IH]; intros Hl; [reflexivity|]. cbn [flat_map].
+        rewrite (Hl r (or_introl eq_refl)). apply IH. intros; apply Hl; now right. }
+      apply G. exact Hreqdecl. }
+    rewrite Hs. unfold set_default, kexp.
+    cbn [k_default k_const k_enum k_items k_additionalItems k_minItems k_maxItems k_uniqueItems
+         k_contains k_minimum k_maximum k_exclusiveMinimum k_exclusiveMaximum k_multipleOf k_format
+         k_pattern k_minLength k_maxLength k_required k_properties k_patternProperties
+         k_additionalProperties k_minProperties k_maxProperties k_propertyNames k_dependencies
+         k_description].
+    rewrite (o_id "const" (k_const K)) by (intros E; unfold K, kw_record; cbn [k_const]; now rewrite E).
+    rewrite (o_id "enum" (k_enum K)) by (intros E; unfold K, kw_record; cbn [k_enum]; now rewrite E).
+    rewrite (o_id "patternProperties" (k_patternProperties K))
+      by (intros E; change (k_patternProperties K) with pats; red in Hpats; now rewrite E in Hpats).
+    rewrite (o_id "minProperties" (k_minProperties K)) by auto.
+    rewrite (o_id "maxProperties" (k_maxProperties K)) by auto.
+    rewrite (o_id "propertyNames" (k_propertyNames K))
+      by (intros E; change (k_propertyNames K) with pnames; red in Hpnames; now rewrite E in Hpnames).
+    rewrite (o_id "dependencies" (k_dependencies K))
+      by (intros E; change (k_dependencies K) with deps; red in Hdeps; now rewrite E in Hdeps).
+    rewrite (o_id "description" (k_description K)) by (intros E; unfold K, kw_record; cbn [k_description]; now rewrite E).
+    reflexivity.
+  Qed.
+
+  Lemma props_rel0 : props_rel O w kvs (Some props0).
+  Proof.
+    red. red in Hprops. unfold props0. destruct props; exact Hprops.
+  Qed.
+
+  Lemma deep_vm_obj k m : jwf (JObj m) ->
+    k_propertyNames k = pnames -> k_dependencies k = deps ->
+    vm (deep_validators O B k (JObj m)) (forallb (fun b => b) (deep_list k (JObj m))).
+  Proof.
+    intros Hv E2 E3. unfold deep_validators, deep_list. rewrite E2, E3. apply vall_vm.
+    constructor; [|constructor; [|constructor; [|constructor; [|constructor]]]].
+    - exact vm_pass.
+    - unfold addpv_b. destruct (addl_truthy _); [exact vm_pass|apply vm_vb].
+    - pose proof (pnames_part O w kvs pnames m Hpnames) as H.
+      unfold pnames_spec. destruct pnames; exact H.
+    - pose proof (deps_vm O w kvs deps (JObj m) m Hdeps Hv) as H.
+      unfold deps_spec. destruct deps; exact H.
+  Qed.
+
+  Definition req_specw (m : list (str * json)) : bool :=
+    match lookup (s_ "required") kvs with
+    | Some (JArr names) =>
+      forallb (fun n => match n with JStr name => has_key name m || waived w kvs name | _ => true end) names
+    | _ => true
+    end.
+
+  Lemma cl_object_unfold_w m :
+    cl_object O w F kvs (JObj m) =
+    req_specw m && forallb (fun kx => member_b O w kvs (fst kx) (snd kx)) m
+    && deps_spec (JObj m) m && pnames_spec m.
+  Proof.
+    unfold cl_object, req_specw.
+    apply (f_equal2 andb); [apply (f_equal2 andb); [apply (f_equal2 andb); [reflexivity|]|]|].
+    - apply forallb_ext. intros [key x]. cbn [fst snd]. apply (spec_member O w kvs key x).
+    - rewrite wkey_lookup. unfold deps_spec. red in Hdeps.
+      destruct (lookup (s_ "dependencies") kvs) as [[| | | | | |dd]|]; try reflexivity.
+      apply spec_deps_go. apply Hdeps.
+    - rewrite wkey_lookup. reflexivity.
+  Qed.
+
+  Lemma In_jstr_list r names : In r (jstr_list (JArr names)) <-> In (JStr r) names.
+  Proof.
+    unfold jstr_list. rewrite in_flat_map. split.
+    - intros (x & Hx & Hr). destruct x; try contradiction. destruct Hr as [<-|[]]. exact Hx.
+    - intros H. exists (JStr r). split; [exact H|now left].
+  Qed.
+
+  (* the parsed properties, concretely (from parse_props) *)
+  Definition props_struct : Prop :=
+    match lookup (s_ "properties") kvs with
+    | None => props = None
+    | Some (JObj pkvs) =>
+      NoDup (keys pkvs) /\
+      exists es, props = Some (map (fun ke : str * elem =>
+                                     (attr cfg (fst ke), mkProp (snd ke) (mem_str (fst ke) reqs) (fst ke))) es) /\
+                 Forall2 (fun (ke : str * elem) (kv : str * json) =>
+                            fst ke = fst kv /\
+                            (In (fst kv) reqs -> (elem_default (snd ke) = None <-> schema_has_default (snd kv) = false)))
+                         es pkvs
+    | Some _ => False
+    end.
+
+  Definition reqs_declared : Prop :=
+    forall r, In r reqs -> match lookup (s_ "properties") kvs with
+                           | Some (JObj pkvs) => has_key r pkvs = true
+                           | _ => False end.
+
+  Lemma req_obj m : w = WCode -> typed_object kvs = true -> props_struct -> reqs_declared ->
+    forallb (fun r => has_key r m) (props_required props0) = req_specw m.
+  Proof.
+    intros Hwc Htyp Hst Hrd. red in Hst. red in Hrd.
+    assert (Hwv : forall name, waived w kvs name =
+              match lookup (s_ "properties") kvs with
+              | Some (JObj pkvs) => match lookup name pkvs with Some Sp => schema_has_default Sp | None => false end
+              | _ => false end).
+    { intros name. unfold waived. rewrite Hwc, Htyp. reflexivity. }
+    unfold req_specw.
+    destruct (lookup (s_ "properties") kvs) as [Sp|] eqn:Ep.
+    2:{ (* no properties: nothing can be required *)
+        unfold props0. rewrite Hst. cbn [props_required filter map forallb].
+        destruct (lookup (s_ "required") kvs) as [[| | | | |names|]|] eqn:Er; try reflexivity.
+        symmetry. apply forallb_forall. intros n Hn. destruct n; try reflexivity.
+        exfalso. apply (Hrd s). unfold reqs. rewrite Er. now apply In_jstr_list. }
+    destruct Sp as [| | | | | |pkvs]; try contradiction.
+    destruct Hst as (Hnd & es & Eprops & Hes).
+    assert (F1 : forall r, In r (props_required props0) ->
+                 In r reqs /\ exists Sp, lookup r pkvs = Some Sp /\ schema_has_default Sp = false).
+    { intros r Hr. unfold props0 in Hr. rewrite Eprops in Hr. unfold props_required in Hr.
+      apply in_map_iff in Hr as ([n p] & <- & Hf). apply filter_In in Hf as [Hin Hc].
+      apply in_map_iff in Hin as ([key e] & E & Hin). inversion E; subst. clear E.
+      cbn [snd p_source p_required p_elem fst] in *. apply andb_true_iff in Hc as [Hc1 Hc2].
+      apply mem_str_In in Hc1. split; [exact Hc1|].
+      destruct (Forall2_In_l _ _ _ _ Hes Hin) as ([k2 Sp] & Hy & Ek & Hd). cbn [fst snd] in *. subst k2.
+      exists Sp. split; [now apply In_lookup|]. apply (Hd Hc1). destruct (elem_default e); [discriminate|reflexivity]. }
+    assert (F2 : forall r Sp, In r reqs -> lookup r pkvs = Some Sp -> schema_has_default Sp = false ->
+                 In r (props_required props0)).
+    { intros r Sp Hr Hl Hd. apply lookup_In in Hl.
+      destruct (Forall2_In_r _ _ _ _ Hes Hl) as ([k2 e] & Hx & Ek & Hde). cbn [fst snd] in *. subst k2.
+      unfold props0. rewrite Eprops. unfold props_required. apply in_map_iff.
+      exists (attr cfg r, mkProp e (mem_str r reqs) r). split; [reflexivity|].
+      apply filter_In. split; [apply in_map_iff; exists (r, e); auto|].
+      cbn [snd p_required p_elem]. rewrite (proj2 (mem_str_In r reqs) Hr). cbn [andb].
+      rewrite (proj2 (Hde Hr) Hd). reflexivity. }
+    destruct (lookup (s_ "required") kvs) as [j|] eqn:Er.
+    2:{ (* no required keyword *)
+        assert (E : props_required props0 = []).
+        { destruct (props_required props0) as [|r l]; [reflexivity|].
+          destruct (F1 r (or_introl eq_refl)) as [Hr _]. unfold reqs in Hr. rewrite Er in Hr. contradiction. }
+        rewrite E. reflexivity. }
+    destruct j as [| | | | |names|];
+      try (assert (E : props_required props0 = []);
+           [destruct (props_required props0) as [|r l]; [reflexivity|];
+            destruct (F1 r (or_introl eq_refl)) as [Hr _]; unfold reqs in Hr; rewrite Er in Hr; contradiction
+           |rewrite E; reflexivity]).
+    assert (Ereqs : reqs = jstr_list (JArr names)) by (unfold reqs; now rewrite Er).
+    apply eq_true_iff_eq. rewrite !forallb_forall. split.
+    - intros H n Hn. destruct n as [| | | |name| |]; try reflexivity.
+      assert (Hr : In name reqs) by (rewrite Ereqs; now apply In_jstr_list).
+      pose proof (Hrd name Hr) as Hdecl. unfold has_key in Hdecl.
+      rewrite Hwv. destruct (lookup name pkvs) as [Sp|] eqn:El; [|discriminate].
+      destruct (schema_has_default Sp) eqn:Ed; [apply orb_true_r|]. rewrite orb_false_r.
+      apply H. eapply F2; eauto.
+    - intros H r Hr. destruct (F1 r Hr) as (Hrq & Sp & Hl & Hd).
+      assert (Hn : In (JStr r) names) by (apply In_jstr_list; now rewrite <- Ereqs).
+      pose proof (H _ Hn) as Hs. cbn beta iota in Hs. rewrite Hwv, Hl, Hd, orb_false_r in Hs. exact Hs.
+  Qed.
+
+  Lemma build_obj_om name bases k m b_v b_d b_c :
+    vm (vall [ vb (forallb (fun r => has_key r m) (required_names k));
+               vb (thr OpLt (Some (len_num m)) (k_minProperties k));
+               vb (thr OpGt (Some (len_num m)) (k_maxProperties k));
+               vb (const_ok (k_const k) (JObj m));
+               vb (enum_ok (k_enum k) (JObj m)) ]) b_v ->
+    vm (deep_validators O B (mkK None None None None (AddBool true) None None false None
+                                 None None None None None None None None None None
+                                 (k_properties k) (k_patternProperties k)
+                                 (k_additionalProperties k) None None
+                                 (k_propertyNames k) (k_dependencies k) None) (JObj m)) b_d ->
+    vm (fst (build_members O B k m)) b_c ->
+    om (B (EObj name bases k) (Some (JObj m))) (b_v && b_d && b_c).
+  Proof.
+    intros Hv Hd Hc. cbn [build with_default].
+    pose proof (vm_vand _ _ _ _ Hv Hd) as Hvd.
+    match goal with |- om (match ?x with _ => _ end) _ => destruct x end; simpl in Hvd.
+    - rewrite Hvd. cbn [andb].
+      destruct (build_members O B k m) as [[| |x] rs]; simpl in Hc; subst; reflexivity.
+    - rewrite Hvd. reflexivity.
+    - exact I.
+  Qed.
+
+  Lemma cl_scalar_obj m :
+    cl_scalar O kvs (JObj m) =
+    on kvs "const" (fun c => js_eq (JObj m) c) &&
+    on kvs "enum" (fun e => match e with JArr l => existsb (js_eq (JObj m)) l | _ => true end) &&
+    on kvs "minProperties" (num_clause OpLt (Some (len_num m))) &&
+    on kvs "maxProperties" (num_clause OpGt (Some (len_num m))).
+  Proof.
+    rewrite cl_scalar_list. unfold spec_list. cbn [forallb js_num].
+    repeat match goal with |- context [on kvs ?s0 ?c] =>
+             rewrite (on_true kvs s0 c) by (intros p; try reflexivity; destruct p as [|[|]| | | | |]; reflexivity) end.
+    repeat match goal with |- context [on kvs ?s0 ?c] => generalize (on kvs s0 c); intro end.
+    btauto.
+  Qed.
+
+  Lemma addpv_implied0 k m : jwf (JObj m) ->
+    k_properties k = Some props0 -> k_patternProperties k = pats -> k_additionalProperties k = addp ->
+    forallb (fun kx => member_b O w kvs (fst kx) (snd kx)) m = true -> addpv_b k (JObj m) = true.
+  Proof.
+    intros Hm E1 E2 E3 Hb. unfold addpv_b. rewrite E3.
+    destruct (addl_truthy addp) eqn:Et; [reflexivity|].
+    apply forallb_forall. intros [key x] Hin. cbn [fst].
+    apply jwf_obj in Hm as [_ Hvals]. rewrite Forall_forall in Hvals.
+    rewrite forallb_forall in Hb.
+    eapply (declared_implied O w kvs (Some props0) pats addp props_rel0 Hpats Haddp) with (x := x); eauto;
+      [exact (Hvals _ Hin)|exact (Hb _ Hin)].
+  Qed.
+
+  Lemma build_obj_set_default name bases k d v :
+    B (EObj name bases (set_default k d)) (Some v) = B (EObj name bases k) (Some v).
+  Proof. reflexivity. Qed.
+
+  Theorem object_om name bases v : w = WCode -> typed_object kvs = true -> props_struct -> reqs_declared ->
+    jwf v ->
+    om (B (EObj name bases (obj_record cfg kvs K)) (Some v)) (has_type (s_ "object") v && rest_b v).
+  Proof.
+    intros Hwc Htyp Hst Hrd Hv. rewrite obj_record_exp. rewrite build_obj_set_default.
+    assert (Hno : forall v0, (match v0 with JObj _ => False | _ => True end) -> has_type (s_ "object") v0 = false).
+    { intros [| | | | | |m0] Hm0; try contradiction; vm_compute; reflexivity. }
+    destruct v as [| | | | | |m]; try (rewrite Hno by exact I; cbn [build with_default]; reflexivity).
+    eapply om_ext.
+    - eapply (build_obj_om name bases kexp m).
+      + apply vall_vm. repeat (constructor; [apply vm_vb|]). constructor.
+      + apply (deep_vm_obj _ m Hv); reflexivity.
+      + apply (members_vm O w kvs (Some props0) pats addp props_rel0 Hpats Haddp kexp eq_refl eq_refl eq_refl m Hv).
+    - assert (Hht : has_type (s_ "object") (JObj m) = true) by (vm_compute; reflexivity).
+      rewrite Hht. unfold rest_b. rewrite cl_scalar_obj, cl_object_unfold_w.
+      rewrite (cl_items_unfold O w kvs (JObj m)).
+      unfold deep_list. cbn [forallb]. rewrite !andb_true_r.
+      unfold required_names. cbn [k_required k_properties kexp app].
+      rewrite (req_obj m Hwc Htyp Hst Hrd).
+      change (k_minProperties kexp) with (lookup (s_ "minProperties") kvs).
+      change (k_maxProperties kexp) with (lookup (s_ "maxProperties") kvs).
+      rewrite !thr_clause.
+      change (k_const kexp) with (k_const K). change (k_enum kexp) with (k_enum K).
+      unfold K. rewrite (const_entry kvs props items pats pnames contains deps addp addi Hconst).
+      rewrite (enum_entry kvs props items pats pnames contains deps addp addi Henum).
+      destruct (forallb (fun kx => member_b O w kvs (fst kx) (snd kx)) m) eqn:Em.
+      + match goal with |- context [addpv_b ?k (JObj m)] =>
+          rewrite (addpv_implied0 k m Hv eq_refl eq_refl eq_refl Em) end.
+        cbn [andb]. 
+        repeat match goal with |- context [on kvs ?s0 ?c] => generalize (on kvs s0 c); intro end.
+        generalize (req_specw m) (deps_spec (JObj m) m) (pnames_spec m). intros. btauto.
+      + repeat match goal with |- context [on kvs ?s0 ?c] => generalize (on kvs s0 c); intro end.
+        generalize (req_specw m) (deps_spec (JObj m) m) (pnames_spec m). intros.
+        match goal with |- context [addpv_b ?k (JObj m)] => generalize (addpv_b k (JObj m)); intro end.
+        btauto.
   Qed.
 End Elem.
